@@ -185,8 +185,50 @@ def writeCase (spec : String) (impl : List String) : String :=
     verdict agree spec (if model.length > 120 then (model.take 120).toString else model)
   | _, _ => "E E bad-fpay-w"
 
+/-! ### the frames the connections write in line -/
+
+def be32Bytes (v : Nat) : Bytes := [UInt8.ofNat (v / 2 ^ 24), UInt8.ofNat (v / 2 ^ 16), UInt8.ofNat (v / 2 ^ 8), UInt8.ofNat v]
+
+/-- declarative wire image of a frame: 24-bit length, type, flags, 31-bit stream id, payload -/
+def refWire (ty fl sid : Nat) (p : Bytes) : String :=
+  hex ([UInt8.ofNat (p.length / 2 ^ 16), UInt8.ofNat (p.length / 2 ^ 8), UInt8.ofNat p.length, UInt8.ofNat ty, UInt8.ofNat fl] ++
+    be32Bytes (sid % 2 ^ 31) ++ p)
+
+/-- one event: (model's octets, reference octets, new highest stream id) -/
+def inlineEv (server : Bool) (maxSid : Nat) (ev : String) : Option (String × String × Nat) :=
+  match ev.splitOn ":" with
+  | ["ping", d] => (unhex d).map (fun d => (wireOf ((Frame.ping true d).mwrite server), refWire 6 1 0 d, maxSid))
+  | ["set", _] => some (wireOf (Frame.settingsAck.mwrite server), refWire 4 1 0 [], maxSid)
+  | ["open", sid] => sid.toNat?.map (fun s => ("-", "-", max maxSid s))
+  | ["shutdown"] => some (wireOf ((Frame.goAway maxSid 0 []).mwrite server), refWire 7 0 0 (be32Bytes maxSid ++ be32Bytes 0), maxSid)
+  | ["push"] => some (wireOf ((Frame.goAway maxSid 1 []).mwrite server), refWire 7 0 0 (be32Bytes maxSid ++ be32Bytes 1), maxSid)
+  | ["data", sid] => sid.toNat?.map (fun s =>
+      -- the 3 octets are handed back to the connection window, the stream (half-closed by the request) is reset: STREAM_CLOSED
+      (wireOf ((Frame.windowUpdate 0 3).mwrite server) ++ "+" ++ wireOf ((Frame.rst s 5).mwrite server),
+       refWire 8 0 0 (be32Bytes 3) ++ "+" ++ refWire 3 0 s (be32Bytes 5), maxSid))
+  | ["wping", ack, d] => (unhex d).map (fun d => (wireOf ((Frame.ping (ack == "1") d).mwrite server), refWire 6 (if ack == "1" then 1 else 0) 0 d, maxSid))
+  | _ => none
+
+def inlineCase (side evs : String) (impl : List String) : String :=
+  match impl with
+  | [outs] =>
+    let server := side == "server"
+    let r := (evs.splitOn ",").foldl (fun (acc : Option (List String × List String × Nat)) ev =>
+      match acc with
+      | none => none
+      | some (ms, rs, mx) => match inlineEv server mx ev with
+        | none => none
+        | some (m, r, mx') => some (m :: ms, r :: rs, mx')) (some ([], [], 0))
+    match r with
+    | none => "E E bad-fpay-i"
+    | some (ms, rs, _) =>
+      let model := joinWith "," ms.reverse
+      verdict (model == outs) (joinWith "," rs.reverse == outs) (if model.length > 120 then (model.take 120).toString else model)
+  | _ => "E E bad-fpay-i"
+
 def run (toks impl : List String) : String :=
   match toks with
+  | ["i", side, evs] => inlineCase side evs impl
   | ["p", ty, fl, sid, h] => parseCase ty fl sid h impl
   | ["w", spec] => writeCase spec impl
   | _ => "E E bad-fpay"
